@@ -2112,14 +2112,14 @@ Proof.
   rewrite E. reflexivity.
 Qed.
 
-Lemma snap_codes_consistent t : Inv false t -> all_zero (snap_codes [] t).
+Lemma snap_codes_r_consistent t : forall top, Inv false t -> all_zero (snap_codes_r top [] t).
 Proof.
-  induction t as [c s x|s x cs IH] using rtree_ind2; intro Hi; [constructor|].
+  induction t as [c s x|s x cs IH] using rtree_ind2; intros top Hi; [constructor|].
   destruct (deep_spec (Agg s x cs) [] (Agg s x cs) Hi eq_refl eq_refl) as [F1 F2].
   cbn [st_of stat_of] in F1, F2.
   pose proof Hi as Hi'. apply Inv_Agg in Hi'. destruct Hi' as [[[Hw _]|F3] [[[Hw' _]|F4] Hcs]]; try discriminate.
   rewrite fold_state_text in F3. rewrite fold_status_text in F4.
-  cbn [snap_codes].
+  cbn [snap_codes_r].
   set (cst := crit_states (Agg s x cs)) in *.
   assert (Herr : existsb (state_beq ERROR) cst = state_beq s ERROR).
   { rewrite F1, <- foldX_spec.
@@ -2152,7 +2152,117 @@ Proof.
     apply all_zero_app; [cbn [sub_paths flat_map]; auto|apply IHcs; assumption].
 Qed.
 
-(* after any sequence of updates from a consistent tree the monitor finds nothing *)
+Lemma snap_codes_consistent t : Inv false t -> all_zero (snap_codes [] t).
+Proof. apply snap_codes_r_consistent. Qed.
+
+(* after any sequence of updates from a consistent tree the monitor finds nothing, whether the
+   tree is judged as a whole workflow (what mon11 does) or as a part of one *)
 Lemma monitor_accepts_model t ops :
-  Inv false t -> pick_code (snap_codes [] (run_ops ops t)) = 0.
-Proof. intro H. apply pick_code_zero, snap_codes_consistent, run_ops_Inv, H. Qed.
+  Inv false t ->
+  pick_code (snap_top [] (run_ops ops t)) = 0 /\ pick_code (snap_codes [] (run_ops ops t)) = 0.
+Proof.
+  intro H. split; apply pick_code_zero, snap_codes_r_consistent, run_ops_Inv, H.
+Qed.
+
+(* ---- status half for loaded trees without the criticality condition: what the loader
+        guarantees since 3e1e68b is that every aggregator has a role below it ---- *)
+Fixpoint ne_aggs (t : rtree) : bool :=
+  match t with
+  | Leaf _ _ _ => true
+  | Agg _ _ cs => negb (is_nil cs) && forallb ne_aggs cs
+  end.
+
+Lemma no_leafless_ne t : no_leafless t = true -> ne_aggs t = true.
+Proof.
+  induction t as [c s x|s x cs IH] using rtree_ind2; intro H; [reflexivity|].
+  cbn [no_leafless ne_aggs] in *. apply andb_true_iff in H. destruct H as [H1 H2].
+  apply andb_true_iff. split.
+  - destruct cs; [discriminate|reflexivity].
+  - apply forallb_forall. intros c Hc. rewrite Forall_forall in IH. apply IH; [exact Hc|].
+    rewrite forallb_forall in H2. apply H2, Hc.
+Qed.
+
+Lemma ne_fresh t : ne_aggs t = true -> ne_aggs (fresh t) = true.
+Proof.
+  induction t as [c s x|s x cs IH] using rtree_ind2; intro H; [reflexivity|].
+  cbn [fresh ne_aggs] in *. apply andb_true_iff in H. destruct H as [H1 H2].
+  rewrite is_nil_map, H1. cbn [andb].
+  apply forallb_forall. intros c Hc. apply in_map_iff in Hc. destruct Hc as [c0 [<- Hc0]].
+  rewrite Forall_forall in IH. apply IH; [exact Hc0|]. rewrite forallb_forall in H2. apply H2, Hc0.
+Qed.
+
+Lemma upd_state_ne : forall p v t, ne_aggs t = true -> ne_aggs (fst (upd_state p v t)) = true.
+Proof.
+  induction p as [|i p IH]; intros v t H.
+  - destruct t; cbn; auto.
+  - destruct t as [c s x|s x cs]; [exact H|]. cbn [upd_state].
+    destruct (nth_error cs i) as [c|] eqn:Hn; [|exact H].
+    cbn [ne_aggs] in H. apply andb_true_iff in H. destruct H as [H1 H2].
+    specialize (IH v c (forallb_nth_error _ _ _ _ H2 Hn)).
+    destruct (upd_state p v c) as [c' f]. cbn [fst] in IH.
+    destruct f as [inc|]; cbn [fst ne_aggs];
+      rewrite is_nil_replace_nth, H1, (forallb_replace_nth _ i c' cs H2 IH); reflexivity.
+Qed.
+
+Lemma upd_status_ne : forall p v t, ne_aggs t = true -> ne_aggs (fst (upd_status p v t)) = true.
+Proof.
+  induction p as [|i p IH]; intros v t H.
+  - destruct t; cbn; auto.
+  - destruct t as [c s x|s x cs]; [exact H|]. cbn [upd_status].
+    destruct (nth_error cs i) as [c|] eqn:Hn; [|exact H].
+    cbn [ne_aggs] in H. apply andb_true_iff in H. destruct H as [H1 H2].
+    specialize (IH v c (forallb_nth_error _ _ _ _ H2 Hn)).
+    destruct (upd_status p v c) as [c' f]. cbn [fst] in IH.
+    destruct f as [inc|]; cbn [fst ne_aggs];
+      rewrite is_nil_replace_nth, H1, (forallb_replace_nth _ i c' cs H2 IH); reflexivity.
+Qed.
+
+Lemma run_ops_ne ops : forall t, ne_aggs t = true -> ne_aggs (run_ops ops t) = true.
+Proof.
+  induction ops as [|o ops IH]; intros t H; [exact H|].
+  cbn [run_ops fold_left]. fold (run_ops ops (apply_op o t)). apply IH.
+  destruct o; cbn [apply_op]; [apply upd_state_ne|apply upd_status_ne]; exact H.
+Qed.
+
+Lemma ne_sub : forall p t n, ne_aggs t = true -> get_sub p t = Some n -> ne_aggs n = true.
+Proof.
+  induction p as [|i p IH]; intros t n H Hg; cbn in Hg.
+  - inversion Hg; subst; exact H.
+  - destruct (nth_error (children t) i) as [c|] eqn:Hn; [|discriminate].
+    destruct t as [c0 s x|s x cs]; cbn in Hn; [destruct i; discriminate|].
+    cbn [ne_aggs] in H. apply andb_true_iff in H. destruct H as [_ H2].
+    eapply IH; [|exact Hg]. eapply forallb_nth_error; eauto.
+Qed.
+
+Lemma deep_fold_status t : Inv true t -> ne_aggs t = true -> stat_of t = foldS (leaf_stats t).
+Proof.
+  induction t as [c s x|s x cs IH] using rtree_ind2; intros H Hne; [reflexivity|].
+  apply Inv_Agg in H. destruct H as [_ [Hx Hcs]].
+  cbn [ne_aggs] in Hne. apply andb_true_iff in Hne. destruct Hne as [Hnil Hne].
+  destruct Hx as [[_ Hx]|Hx]; [subst cs; discriminate|].
+  rewrite Forall_forall in IH, Hcs. rewrite forallb_forall in Hne.
+  cbn [stat_of]. rewrite Hx, fold_status_foldS.
+  destruct cs as [|c0 cs0]; [discriminate|].
+  rewrite leaf_stats_cons.
+  rewrite foldS_flat_map; [|discriminate|intros; apply leaf_stats_nonempty].
+  f_equal. apply map_ext_in. intros c Hc. apply (IH c Hc (Hcs c Hc) (Hne c Hc)).
+Qed.
+
+Lemma loaded_status_fold t0 ops p n :
+  no_leafless t0 = true ->
+  get_sub p (run_ops ops (fresh t0)) = Some n ->
+  stat_of n = spec_status (leaf_stats n).
+Proof.
+  intros Hl Hg. rewrite <- foldS_spec. apply deep_fold_status.
+  - eapply Inv_sub; [|exact Hg]. apply run_ops_Inv, fresh_weak.
+  - eapply ne_sub; [|exact Hg]. apply run_ops_ne, ne_fresh, no_leafless_ne, Hl.
+Qed.
+
+(* and the monitor class that guards it: a loaded tree in which an aggregator below the root has
+   no role below it is flagged (10) before any update; the same tree as a whole workflow with
+   nothing at all below the root is not *)
+Lemma code10_witness :
+  pick_code (snap_top [] (Agg STANDBY INACTIVE [Agg STANDBY INACTIVE []; Leaf true STANDBY INACTIVE])) = 10 /\
+  memN 10 (snap_top [] (Agg STANDBY INACTIVE [])) = false /\
+  memN 10 (snap_codes [] (Agg STANDBY INACTIVE [])) = true.
+Proof. vm_compute. repeat split; reflexivity. Qed.
